@@ -158,6 +158,13 @@ pub fn write_file(f: &FileModel) -> Vec<u8> {
                         out.push_str(l.sep());
                     }
                     out.push(']');
+                    // one row in four ends in blanks or a tab after the bracket (drawn apart from the layout stream, so
+                    // that files written from earlier layout values keep their bytes otherwise)
+                    match splitmix64(r.layout ^ ((s as u64 + 1) << 40)) % 8 {
+                        0 => out.push(' '),
+                        1 => out.push_str("  \t"),
+                        _ => {}
+                    }
                     out.push_str(nl);
                 }
             }
@@ -686,7 +693,7 @@ impl Sub for RoundTrip {
         "roundtrip"
     }
     fn rule(&self) -> &'static str {
-        "model list of 1..40 (quick) / ..400 (thorough) records -> own writer per format (JASPAR raw, JASPAR 2016, TRANSFAC, UniPROBE; DNA and protein where supported; ids / accession / name / description present or absent incl. multi-byte UTF-8; width 1..30, one in twelve 31..130 (position numbers of three digits); counts to u32::MAX in every count format (TRANSFAC: also decimals); symbol lines / columns in any order and possibly missing; separator runs of blanks and tabs; LF or CRLF; optional VV block, XX lines, blank lines where the format allows) -> bytes -> reader over 3 generated chunkings (1-byte chunks, fixed, cyclic patterns, BufReader capacity 1..8192, whole); records read must equal the model (count, order, every field, every cell, unnamed columns 0), the by-value / derived accessors (into_matrix, CountMatrix::from(record), TRANSFAC to_counts for integral data) must agree with the matrix, and then None twice; non-trivial = >= 2 records and a chunking whose chunks are shorter than the file"
+        "model list of 1..40 (quick) / ..400 (thorough) records -> own writer per format (JASPAR raw, JASPAR 2016, TRANSFAC, UniPROBE; DNA and protein where supported; ids / accession / name / description present or absent incl. multi-byte UTF-8; width 1..30, one in twelve 31..130 (position numbers of three digits); counts to u32::MAX in every count format (TRANSFAC: also decimals); symbol lines / columns in any order and possibly missing; separator runs of blanks and tabs (JASPAR 2016: also after the closing bracket of a row); LF or CRLF; optional VV block, XX lines, blank lines where the format allows) -> bytes -> reader over 3 generated chunkings (1-byte chunks, fixed, cyclic patterns, BufReader capacity 1..8192, whole); records read must equal the model (count, order, every field, every cell, unnamed columns 0), the by-value / derived accessors (into_matrix, CountMatrix::from(record), TRANSFAC to_counts for integral data) must agree with the matrix, and then None twice; non-trivial = >= 2 records and a chunking whose chunks are shorter than the file"
     }
     fn cases(&self, tier: Tier) -> u64 {
         tier.pick(20_000, 400_000)
